@@ -42,6 +42,7 @@ def dispatch (op : String) : Option (List String → List String → Option (Str
   | "raterun.stop" => some raterunOp
   | "raterun.switch" => some raterunOp
   | "raterun.count" => some raterunOp
+  | "raterun.newstart" => some raterunOp
   | "plan" => some plan
   | "gaussvol" => some gaussvol
   | "pipeline" => some pipelineOp
